@@ -350,6 +350,9 @@ func (in *Interp) keyOf(v Value) (string, bool) {
 		return "I:" + a.t.String() + ":" + k, ok
 	case *Term, *Rope:
 		return "", false
+	case *RType:
+		// reflect.Type identity is Go type identity
+		return "rt:" + a.t.String(), true
 	case nil:
 		return "nil", true
 	case *Closure:
